@@ -466,7 +466,7 @@ class Log():
         # If the log configuration contains variables that we added without
         # type (i.e we want the stored as type for fetching as well) then
         # resolve this now and add them to the block again.
-        for name in logconf.default_fetch_as:
+        for name in list(logconf.default_fetch_as):
             var = self.toc.get_element_by_complete_name(name)
             if not var:
                 logger.warning(
@@ -476,6 +476,7 @@ class Log():
             # Now that we know what type this variable has, add it to the log
             # config again with the correct type
             logconf.add_variable(name, var.ctype)
+            logconf.default_fetch_as.remove(name)
 
         # Now check that all the added variables are in the TOC and that
         # the total size constraint of a data packet with logging data is
